@@ -49,6 +49,11 @@ func (s *sessions) get(h Header) (Handler, error) {
 		sessionsGetMiss.Inc()
 		return nil, nil
 	}
+	// the reply to a request numbered 255 would carry 256, which does not fit the 8 bit
+	// LastSequence below: the session has used up its sequence numbers and cannot continue
+	if sc.header.SeqNo > HeaderMaxSequence {
+		return nil, fmt.Errorf("sessionID [%v] sequence numbers are exhausted", h.SessionID)
+	}
 	if err := LastSequence(sc.header.SeqNo).Validate(h.SeqNo); err != nil {
 		return nil, fmt.Errorf("sessionID [%v] sequence number is mismatched; %v", h.SessionID, err)
 	}
